@@ -356,7 +356,7 @@ def model_and_graph(module, cfg_template, consts, wd, name, actions, timeout_s=1
     return g, stats
 
 
-def write_paths(g, paths, wd, chunks, extra=None):
+def write_paths(g, paths, wd, chunks, extra=None, extra_fn=None):
     files = [open(os.path.join(wd, "paths_%02d.ndjson" % i), "w") for i in range(chunks)]
     # longest paths first, so that the parallel chunks are balanced
     order = sorted(range(len(paths)), key=lambda i: -len(paths[i]))
@@ -367,6 +367,8 @@ def write_paths(g, paths, wd, chunks, extra=None):
         obj = {"steps": steps}
         if extra:
             obj.update(extra)
+        if extra_fn:
+            obj.update(extra_fn(i))
         c = load.index(min(load))
         load[c] += len(p) + 5
         files[c].write(json.dumps(obj) + "\n")
@@ -400,7 +402,7 @@ def tla_set(xs):
     return "{" + ", ".join('"%s"' % x for x in xs) + "}"
 
 
-def account_check(prop, tier, replay, instances, rule, assumptions, level="model_checking"):
+def account_check(prop, tier, replay, instances, rule, assumptions, level="model_checking", path_extra=None):
     import random
     t0 = time.time()
     wd = vlib.workdir("%s_%s" % (prop, tier))
@@ -450,7 +452,7 @@ def account_check(prop, tier, replay, instances, rule, assumptions, level="model
         sample_n = inst.get("sample_paths")
         if sample_n and len(paths) > sample_n:
             paths = rng.sample(paths, sample_n)
-        files = write_paths(g, paths, iwd, 12)
+        files = write_paths(g, paths, iwd, 12, extra_fn=path_extra)
         summ = vlib.run_harness_parallel(
             lambda p: [vlib.harness_bin("replay"), "account", p, inst.get("backends", "fs,db"),
                        os.path.join(scratch, "i%d_%s" % (n, os.path.basename(p)[:8])), prop],
@@ -475,7 +477,7 @@ def account_check(prop, tier, replay, instances, rule, assumptions, level="model
         "graph_edges": tot["edges"], "edges_covered": tot["covered"], "tour_paths": tot["paths"],
         "tour_steps": tot["steps"], "instances": inst_desc, "backends": ["fs", "db"],
         "action_coverage": cov, "samples": summ["samples"][:3],
-        "model_mismatches": len(summ["mismatches"]),
+        "model_mismatches": len(summ["mismatches"]), "counters": summ["counters"],
     }
     vlib.write_evidence(prop, tier, level, cover, assumptions, time.time() - t0, len(summ["violations"]))
     known_hits = [dict(known[k["key"]], **k) for k in summ["known"] if k["key"] in known]
@@ -758,3 +760,72 @@ def check_c04(tier, replay):
 @register("C05")
 def check_c05(tier, replay):
     return sync_check("C05", tier, replay)
+
+
+C20_ENABLED = ["CreateSecret", "UpdateSecret", "DeleteSecret", "MoveSecret", "Archive", "CreateFolder",
+               "DeleteFolder", "RenameFolder", "SignOutIn"]
+
+
+@register("C20")
+def check_c20(tier, replay):
+    rule = ("Behaviours of Account.tla (secret edits, moves, archive/unarchive, folder creation/removal, reload) "
+            "from the transition tour are replayed on LocalAccount (fs + sqlite); after every step the search "
+            "index must hold exactly one document per live secret of every folder with its current label, "
+            "tags, kind and favourite flag, its per-folder/kind/tag/favourite counters must equal a recount, "
+            "and it must equal an index built from scratch with add_folder. Merges from other devices are "
+            "covered by replaying simulated Sync.tla behaviours with the same predicate after every sync. "
+            "Non-trivial = behaviour with a state-changing step.")
+    if tier == "quick":
+        inst = [{"consts": base_consts(MetaFolders=["f1"], Enabled=C20_ENABLED), "max_len": 60}]
+    else:
+        inst = [{"consts": base_consts(Enabled=C20_ENABLED, MetaFolders=["f1"]), "representatives": False,
+                 "max_len": 80},
+                {"consts": base_consts(Values=["v3", "v4", "v6"], MetaFolders=["f1"], Enabled=C20_ENABLED),
+                 "max_len": 80}]
+    rc = account_check("C20", tier, replay, inst, rule, ACCOUNT_ASSUME)
+    if rc != 0 or replay:
+        return rc
+    # merges received from other devices: the sync world with the C20 predicate
+    ev_path = os.path.join(vlib.EVID, "C20.json")
+    ev_account = json.load(open(ev_path))
+    rc2 = sync_check("C20", tier, None)
+    ev_sync = json.load(open(ev_path))
+    ev_account["coverage"]["sync_world"] = {k: ev_sync["coverage"].get(k) for k in
+                                            ("traces_validated_against_impl", "impl_steps_compared",
+                                             "simulated_behaviours", "states", "transitions")}
+    ev_account["coverage"]["traces_validated_against_impl"] += ev_sync["coverage"]["traces_validated_against_impl"]
+    ev_account["violations"] = ev_account.get("violations", 0) + ev_sync.get("violations", 0)
+    ev_account["wall_s"] = round(ev_account["wall_s"] + ev_sync["wall_s"], 2)
+    json.dump(ev_account, open(ev_path, "w"), indent=1, sort_keys=True)
+    return rc2
+
+
+C16_ENABLED = ["CreateSecret", "UpdateSecret", "DeleteSecret", "MoveSecret", "CreateFolder", "DeleteFolder",
+               "RenameFolder", "SetDescription", "SignOutIn", "Compact", "ChangeFolderPassword"]
+
+
+@register("C16")
+def check_c16(tier, replay):
+    rule = ("Behaviours of Account.tla (secret/folder operations, compaction, folder password change, reload) "
+            "from the transition tour are replayed on LocalAccount (fs + sqlite); the integrity report "
+            "(account_integrity over all folders) of the untampered account must contain no failure at the "
+            "end of every behaviour, after every reload and every 7th step. At the end of selected behaviours "
+            "a corruption campaign is run on the final state of every folder: one bit is flipped at the first, "
+            "middle and last byte (thorough: at every byte) of every secret row's encrypted content and stored "
+            "checksum and of every event record's payload and hash (file offsets located by content on the file "
+            "system; blob columns in sqlite), and the vault file / event log are removed; each time the report "
+            "must contain a failure for that folder, then the byte is restored. Non-trivial = behaviour with a "
+            "state-changing step.")
+    every = 5 if tier == "quick" else 2
+    mode = "sample" if tier == "quick" else "every"
+
+    def extra(i):
+        return {"corrupt": mode if i % every == 0 else "none"}
+    if tier == "quick":
+        inst = [{"consts": base_consts(MetaFolders=["f1"], Enabled=C16_ENABLED), "max_len": 40}]
+    else:
+        inst = [{"consts": base_consts(MetaFolders=["f1"], Enabled=C16_ENABLED), "max_len": 40},
+                {"consts": base_consts(Values=["v3", "v6"], MetaFolders=["f1"], Enabled=C16_ENABLED),
+                 "max_len": 40, "sample_paths": 150}]
+    return account_check("C16", tier, replay, inst, rule, ACCOUNT_ASSUME, level="model_checking",
+                         path_extra=extra)
